@@ -527,6 +527,8 @@ def specs(draw, prof=None):
     prof = prof or DEFAULT_PROFILE
     g = Gen(draw, prof)
     H = None if g.chance(prof["p_no_horizon"]) else g.int(*prof["horizon"])
+    if H is not None and prof.get("horizon_choices") and g.chance(prof.get("p_horizon_choices", 40)):
+        H = g.pick(prof["horizon_choices"])
     spec = {
         "name": "P",
         "horizon": H,
@@ -610,6 +612,30 @@ def specs(draw, prof=None):
                 continue
             seen_builtin.add(key)
         spec["indicators"].append(i)
+    pct = prof.get("indicator_constraints", 0)
+    if pct:
+        Hh = H if H is not None else 6
+        for i in spec["indicators"]:
+            if not g.chance(pct):
+                continue
+            if i["type"] == "ResourceUtilization":
+                val = g.pick([0, 25, 50, 100, g.int(0, 100)])
+            elif i["type"] == "ResourceCost":
+                val = g.int(0, 12)
+            else:
+                val = g.int(0, Hh)
+            if g.chance(50):
+                c = {"type": "IndicatorTarget", "name": g.name("c"), "ind": i["id"], "value": val}
+            else:
+                c = {"type": "IndicatorBounds", "name": g.name("c"), "ind": i["id"]}
+                k = g.pick(["lo", "hi", "both"])
+                if k in ("lo", "both"):
+                    c["lo"] = val
+                if k in ("hi", "both"):
+                    c["hi"] = val + g.int(0, 3)
+            if prof["optional_constraints"] and g.chance(prof["optional_constraints"]):
+                c["optional"] = True
+            spec["constraints"].append(c)
     return spec
 
 
